@@ -253,7 +253,7 @@ uint64_t tree_hash(const string &root, bool skip_lock) {
   uint64_t h = 7;
   for (auto &kv : names) {
     if (!under(kv.first, root)) continue;
-    if (skip_lock && baseof(kv.first) == "LOCK") continue;
+    if (skip_lock && (baseof(kv.first) == "LOCK" || baseof(kv.first) == "LOG" || baseof(kv.first) == "LOG.old")) continue; // lock and info-log files are not database content
     h = hash_str(kv.first.substr(root.size()), h);
     h = hash_str(kv.second->data, h * 31 + kv.second->isdir);
   }
